@@ -815,9 +815,10 @@ class Server:
             await asyncio.wait(tasks)
         for writer in list(self._writers):
             # a peer which does not read must not hold the shutdown: what
-            # is still unsent is dropped (no-op for a closed transport),
-            # also for sessions which ended before
-            writer.transport.abort()
+            # is still unsent is dropped, also for sessions which ended
+            # before (transport without unsent data closes on its own)
+            if writer.transport.get_write_buffer_size():
+                writer.transport.abort()
         await self.server.wait_closed()
 
     async def write_line(self, stream, line):
